@@ -1,9 +1,9 @@
 (* Property C13: schemas survive printing, parsing and wire serialization; the wire schema lists
    field counts in the order generated code consumes them. *)
 From Coq Require Import List NArith Bool.
-From Stef Require Import Bits BitIO Varint Codecs Frame.
+From Stef Require Import Bits BitIO Varint Codecs Frame Reader.
 From Stef.Schema Require Import Schema.
-From Stef.Idl Require Import Lexer Ast Parser Resolve Printer WireSchema WireSchemaFacts.
+From Stef.Idl Require Import Lexer Ast Parser Resolve Printer WireSchema WireSchemaFacts WireOrderFacts PrinterFacts.
 Import ListNotations.
 Open Scope N_scope.
 
@@ -25,3 +25,52 @@ Theorem C13_deserialize_over_limit : forall n rest,
   1024 < n -> n < two64 -> deserialize (leb_enc n ++ rest) = inl ELimit.
 Proof. exact deserialize_over_limit. Qed.
 Print Assumptions C13_deserialize_over_limit.
+
+(* order: for every well-formed numbered schema (references in range, arrays not nested) and every
+   root, NewWireSchema's depth-first first-encounter list is exactly the list of field counts in
+   the order the generated Init consumes them (getFieldCount's memo), and the model's fuel suffices *)
+Theorem C13_wire_schema_order : forall sc, wf_schema sc -> forall root, root < ns sc ->
+  new_wire_schema sc root = Some (own_counts sc root).
+Proof. exact wire_schema_order. Qed.
+Print Assumptions C13_wire_schema_order.
+
+(* D8 (fixed by 7ccc306): the printer as it was dropped the dictionary of array elements ... *)
+Theorem C13_print_parse_refuted_before_fix_array_dict :
+  parse d8_array_dict = OOk s_array_dict [] /\
+  parse (utf8_encode (print_legacy s_array_dict)) = OOk s_array_dict_legacy [] /\
+  i_structs s_array_dict_legacy <> i_structs s_array_dict.
+Proof. exact print_legacy_drops_array_dict. Qed.
+Print Assumptions C13_print_parse_refuted_before_fix_array_dict.
+
+(* ... printed an enum-typed field as uint64 ... *)
+Theorem C13_print_parse_refuted_before_fix_enum :
+  parse d8_enum_field = OOk s_enum_field [] /\
+  (exists w, parse (utf8_encode (print_legacy s_enum_field)) = OOk s_enum_field_legacy w) /\
+  i_structs s_enum_field_legacy <> i_structs s_enum_field.
+Proof. exact print_legacy_loses_enum. Qed.
+Print Assumptions C13_print_parse_refuted_before_fix_enum.
+
+(* ... which the parser rejects when the field has a dict modifier *)
+Theorem C13_print_parse_refuted_before_fix_enum_dict :
+  parse d8_enum_dict = OOk s_enum_dict [] /\
+  exists p, parse (utf8_encode (print_legacy s_enum_dict)) = OErr p MDictPrim.
+Proof. exact print_legacy_enum_dict_rejected. Qed.
+Print Assumptions C13_print_parse_refuted_before_fix_enum_dict.
+
+(* the repaired printer round-trips the three witnesses exactly *)
+Theorem C13_print_parse_witnesses_fixed :
+  parse (utf8_encode (print s_array_dict)) = OOk s_array_dict [] /\
+  parse (utf8_encode (print s_enum_field)) = OOk s_enum_field [] /\
+  parse (utf8_encode (print s_enum_dict)) = OOk s_enum_dict [].
+Proof. exact print_fixed_witnesses. Qed.
+Print Assumptions C13_print_parse_witnesses_fixed.
+
+(* print/parse round trip for ALL parsed schemas: refuted as stated (known finding
+   C13-empty-schema): a schema without a root struct is pruned to the empty schema, printed as the
+   bare package line, and that is rejected.  For schemas with a root the round trip is only
+   observed by the correspondence check (tools/check_idl.py C13), not proved. *)
+Theorem C13_print_parse_refuted_rootless :
+  (exists w, parse rootless = OOk (mkISchema [[97]] [] [] []) w) /\
+  exists p, parse (utf8_encode (print (mkISchema [[97]] [] [] []))) = OErr p MTopLevel.
+Proof. exact print_parse_rootless_refuted. Qed.
+Print Assumptions C13_print_parse_refuted_rootless.
